@@ -9,7 +9,11 @@ import numpy as np
 from .common import Disagreement, drive, q, qs, parse_qs, ROOT
 
 PROP_MODULE = 'PbVerif.Props.C08'
-RULE = ('2-D max_cross: for every 2-D polynomial method, order pairs (equal and UNEQUAL, 0..4) x every max_cross from 0 to beyond the larger '
+RULE = ('2-D max_cross columns: the real _PolyHelper2D Vandermonde matrix (fresh helper and one re-used through _setup_polynomial) for ALL order pairs '
+        '(a, b) <= 4 x max_cross in {None, 0 .. max(a, b) + 1} on an exact dyadic grid and a random grid: zero pattern of the columns == the '
+        'kept-column flags of the Lean transcription of the loop (exact), kept columns == x^i z^j with (i, j) = divmod(column, b + 1), one row '
+        'times an integer vector == polyval2d of the masked coefficient matrix (Lean); the allowed set used below is the Lean definition; '
+        '2-D max_cross: for every 2-D polynomial method, order pairs (equal and UNEQUAL, 0..4) x every max_cross from 0 to beyond the larger '
         'order and None, against the documented monomial set {x^i z^j : i = 0 or j = 0 or max(i, j) <= max_cross} written down '
         'independently of the code: returned coefficients of excluded monomials are zero, the baseline lies in the span of the allowed '
         'monomials (independent projection), and for poly the residual is W-orthogonal to every allowed monomial in exact rationals; '
@@ -65,6 +69,129 @@ UNEQUAL_PAIRS = [(1, 3), (4, 2), (2, 3), (3, 1), (1, 2), (2, 4), (0, 3), (4, 1),
 EQUAL_PAIRS = [(2, 2), (3, 3), (1, 1), (4, 4), (0, 0)]
 
 
+def mc_str(mc):
+    return 'none' if mc is None else str(int(mc))
+
+
+_ALLOWED = {}
+
+
+def lean_allowed(ox, oz, mc):
+    """the documented monomial set as DEFINED IN LEAN (`Poly2d.allowed`, driver op c08.allowed; the theorems of Props/C08 -
+    maxCross_kept_iff, allowed_downward_closed, convertCoef2d_preserves_exclusion - are about this definition): the oracle of the
+    excluded-coefficient, span and normal-equation checks below"""
+    key = (int(ox), int(oz), None if mc is None else int(mc))
+    if key not in _ALLOWED:
+        keys = [key]
+        if key[0] <= 4 and key[1] <= 4 and (key[2] is None or key[2] <= 6):
+            keys = [(a, b, m) for a in range(5) for b in range(5) for m in [None] + list(range(7))]
+        for k, r in zip(keys, drive([f'c08.allowed {a} {b} {mc_str(m)}' for (a, b, m) in keys])):
+            rows = r.split(';')
+            if len(rows) != k[0] + 1 or any(len(row) != k[1] + 1 or set(row) - set('01') for row in rows):
+                raise ValueError(f'c08.allowed {k}: malformed answer {r!r}')
+            _ALLOWED[k] = [(i, j) for i, row in enumerate(rows) for j, ch in enumerate(row) if ch == '1']
+    return list(_ALLOWED[key])
+
+
+def real_vandermonde(a, b, mc, x, z, fitter=None):
+    """the REAL `_PolyHelper2D.vandermonde` for orders (a, b) and max_cross mc: fresh helper when fitter is None, otherwise through
+    `fitter._setup_polynomial` (the helper of the fitter is then re-used: `recalc_vandermonde`)"""
+    from pybaselines.two_d._algorithm_setup import _PolyHelper2D
+    if fitter is None:
+        return _PolyHelper2D(x, z, np.array([x.min(), x.max()]), np.array([z.min(), z.max()]), np.array([a, b]), mc).vandermonde
+    fitter._setup_polynomial(np.zeros((len(x), len(z))), poly_order=(a, b), calc_vander=True, max_cross=mc)
+    return fitter._polynomial.vandermonde
+
+
+def keptcols_problem(a, b, mc, x, z, bits, V):
+    """column by column: the zero pattern of the real matrix against the model's kept-column bitmap (exact), and every kept column
+    against the monomial x^i z^j, (i, j) = divmod(column, b + 1), computed here; text of the first difference or None"""
+    N = (a + 1) * (b + 1)
+    if V.shape != (len(x) * len(z), N):
+        return f'the Vandermonde matrix has shape {V.shape}, expected {(len(x) * len(z), N)}'
+    if len(bits) != N or set(bits) - set('01'):
+        return f'model bitmap {bits!r} does not have {N} flags'
+    tx = np.polynomial.polyutils.mapdomain(x, np.array([x.min(), x.max()]), np.array([-1., 1.]))
+    tz = np.polynomial.polyutils.mapdomain(z, np.array([z.min(), z.max()]), np.array([-1., 1.]))
+    for k in range(N):
+        i, j = divmod(k, b + 1)
+        zero = not np.any(V[:, k])
+        if bits[k] == '0' and not zero:
+            return f'column {k} (x^{i} z^{j}) is zeroed in the model but not in the real matrix'
+        if bits[k] == '1':
+            if zero:
+                return f'column {k} (x^{i} z^{j}) is kept in the model but is all zero in the real matrix'
+            ref = np.outer(tx ** i, tz ** j).ravel()
+            if not np.allclose(V[:, k], ref, rtol=1e-12, atol=0):
+                return f'column {k} of the real matrix is not the monomial x^{i} z^{j} (column order)'
+    return None
+
+
+def max_cross_columns(ctx, rng, dis):
+    """driver ops c08.keptcols / c08.maskedrow against the real `_PolyHelper2D`: all order pairs (a, b) <= 4 x max_cross in
+    {None, 0 .. max(a, b) + 1}; fresh helpers and one fitter whose helper is re-used over the whole (shuffled) sequence"""
+    from pybaselines import Baseline2D
+    combos = [(a, b, mc) for a in range(5) for b in range(5) for mc in [None] + list(range(max(a, b) + 2))]
+    # the Lean definition of the allowed set against the documentation's set written in Python above
+    for (a, b, mc) in combos:
+        if sorted(lean_allowed(a, b, mc)) != sorted(allowed_monomials(a, b, mc)):
+            dis.append(Disagreement('c08.model', 'model:allowed', f'Lean `allowed` for orders {(a, b)}, max_cross {mc} is {sorted(lean_allowed(a, b, mc))}, '
+                                    f'the documented set is {sorted(allowed_monomials(a, b, mc))}', {'a': a, 'b': b, 'mc': mc}, False))
+    bits = dict(zip(combos, drive([f'c08.keptcols {a} {b} {mc_str(mc)}' for (a, b, mc) in combos])))
+    ctx.traces += len(combos)
+    # exact grid: mapped abscissae are dyadic (-1, -1/2, 0, 1/2, 1) so that every entry of the matrix is exact in binary64
+    xe, ze = np.linspace(-1, 1, 5), np.linspace(2, 6, 5)      # both map to -1, -1/2, 0, 1/2, 1 exactly
+    dx, dz = DOMAINS[int(rng.integers(0, len(DOMAINS)))], DOMAINS[int(rng.integers(0, len(DOMAINS)))]
+    xg, zg = np.sort(rng.uniform(*dx, 6)), np.sort(rng.uniform(*dz, 5))
+    reused = {'exact': Baseline2D(xe, ze), 'generic': Baseline2D(xg, zg)}
+    order = [combos[i] for i in rng.permutation(len(combos))]
+    lines, checks = [], []
+    prev = None
+    for (a, b, mc) in order:
+        for grid, (x, z) in (('exact', (xe, ze)), ('generic', (xg, zg))):
+            for how in ('fresh', 'reused'):
+                meta = {'check': 'keptcols', 'a': a, 'b': b, 'mc': mc, 'x': x.tolist(), 'z': z.tolist(), 'two_d': True, 'how': how,
+                        'prev': list(prev) if prev is not None and how == 'reused' else None}
+                try:
+                    V = real_vandermonde(a, b, mc, x, z, reused[grid] if how == 'reused' else None)
+                except Exception as ex:
+                    ctx.count('raises-keptcols:' + type(ex).__name__)
+                    continue
+                ctx.case(('keptcols', a, b, mc, grid, how, dx, dz), nontrivial=(a > 0 and b > 0))
+                ctx.count('keptcols:' + how)
+                t = keptcols_problem(a, b, mc, x, z, bits[(a, b, mc)], V)
+                if t:
+                    dis.append(Disagreement('c08.keptcols', f'keptcols:{how}', f'_PolyHelper2D (orders {(a, b)}, max_cross {mc}, {how} helper, {grid} grid): {t}; '
+                                            f'model flags {bits[(a, b, mc)]}', meta, True))
+                    continue
+                if how == 'fresh' and V.shape[0]:
+                    # one row of the real matrix times an integer coefficient vector: model row, model product, and polyval2d of
+                    # the masked coefficient matrix (vander_masked_apply)
+                    r = int(rng.integers(0, V.shape[0]))
+                    p_, q_ = divmod(r, len(z))
+                    tx = np.polynomial.polyutils.mapdomain(x, np.array([x.min(), x.max()]), np.array([-1., 1.]))
+                    tz = np.polynomial.polyutils.mapdomain(z, np.array([z.min(), z.max()]), np.array([-1., 1.]))
+                    coef = rng.integers(-9, 10, V.shape[1]).astype(float)
+                    lines.append(f'c08.maskedrow {a} {b} {mc_str(mc)} {q(tx[p_])} {q(tz[q_])} {qs(coef)}')
+                    checks.append((dict(meta, row=r, coef=coef.tolist()), grid, V[r].copy(), float(V[r] @ coef), float(np.abs(V[r]) @ np.abs(coef))))
+        prev = (a, b, mc)
+    res = drive(lines)
+    ctx.traces += len(lines)
+    for ln, r, (meta, grid, row, prod, mag) in zip(lines, res, checks):
+        mrow, mdot, mval = r.split(' ')
+        mrow = [float(v) for v in parse_qs(mrow)]
+        exact = grid == 'exact'
+        label = f'_PolyHelper2D (orders {(meta["a"], meta["b"])}, max_cross {meta["mc"]}), row {meta["row"]}'
+        if Fraction(mdot) != Fraction(mval):
+            dis.append(Disagreement('c08.model', 'model:maskedrow', f'{ln}: model product {mdot} differs from polyval2d of the masked coefficients {mval}', meta, False))
+        elif len(mrow) != len(row) or not (np.array_equal(row, mrow) if exact else np.allclose(row, mrow, rtol=1e-12, atol=0)):
+            dis.append(Disagreement('c08.keptcols', 'maskedrow:row', f'{label}: the real row {row.tolist()} differs from the model row {mrow}', meta, True))
+        elif (prod != float(Fraction(mdot))) if exact else (abs(prod - float(Fraction(mdot))) > 1e-12 * mag):
+            dis.append(Disagreement('c08.keptcols', 'maskedrow:dot', f'{label}: row @ coef = {prod!r}, polyval2d of the masked coefficient matrix at the mapped point = '
+                                    f'{float(Fraction(mdot))!r}', meta, True))
+        ctx.count('maskedrow:' + grid)
+
+
 def max_cross_problems(name, kw, x, z, Y, only=None, stats=None):
     """the 2-D polynomial method `name` called (fresh fitter) with kw = {poly_order: (ox, oz), max_cross, weights, ...}: list of
     (check, text) for every clause of the documented max_cross semantics that fails"""
@@ -77,7 +204,7 @@ def max_cross_problems(name, kw, x, z, Y, only=None, stats=None):
     stats = {} if stats is None else stats
     if not np.all(np.isfinite(b)):
         return out
-    allowed = allowed_monomials(ox, oz, mc)
+    allowed = lean_allowed(ox, oz, mc)       # the Lean definition is the oracle (compared with allowed_monomials in max_cross_columns)
     excluded = [(i, j) for i in range(ox + 1) for j in range(oz + 1) if (i, j) not in allowed]
     coef = np.asarray(p['coef'], dtype=float)
     label = f'2-D {name}(poly_order={(ox, oz)}, max_cross={mc})'
@@ -404,6 +531,8 @@ def correspond(ctx):
                 continue
             lines.append(f'c08.evalb2 {";".join(qs(r) for r in coef)} {qs(x)} {qs(z)}')
             checks.append(('evalb2', meta, (b, ox, oz)))
+    # 2-D max_cross, column level: the model's kept-column flags against the real Vandermonde matrix (own random stream)
+    max_cross_columns(ctx, ctx.np_rng(), dis)
     res = drive(lines, timeout=1200)
     ctx.traces += len(lines)
     worst = 0.0
@@ -486,6 +615,16 @@ def replay(ctx, data):
     from pybaselines import Baseline, Baseline2D
     r = data['replay']
     try:
+        if r.get('check') == 'keptcols':
+            x, z = np.array(r['x']), np.array(r['z'])
+            mc = r['mc']
+            bits = drive([f'c08.keptcols {r["a"]} {r["b"]} {mc_str(mc)}'])[0]
+            fitter = None
+            if r.get('how') == 'reused':
+                fitter = Baseline2D(x, z)
+                if r.get('prev'):
+                    real_vandermonde(*r['prev'], x, z, fitter)
+            return keptcols_problem(r['a'], r['b'], mc, x, z, bits, real_vandermonde(r['a'], r['b'], mc, x, z, fitter))
         kw = dict(r['kw'])
         if 'weights' in kw and kw['weights'] is not None:
             kw['weights'] = np.array(kw['weights'])
